@@ -11,20 +11,20 @@ import (
 
 // Val is a tagged, lossless representation of a Zn value.
 type Val struct {
-	T     string `json:"t"` // num text bool null list dict object type method exception govalue nil other
-	Bits  uint64 `json:"bits,omitempty"`
-	R     []int32 `json:"r,omitempty"` // text as runes of bytes? no: text as raw bytes widened (lossless for invalid UTF-8)
-	B     bool   `json:"b,omitempty"`
-	Items []Val  `json:"items,omitempty"`
+	T     string    `json:"t"` // num text bool null list dict object type method exception govalue nil other
+	Bits  uint64    `json:"bits,omitempty"`
+	R     []int32   `json:"r,omitempty"` // text as runes of bytes? no: text as raw bytes widened (lossless for invalid UTF-8)
+	B     bool      `json:"b,omitempty"`
+	Items []Val     `json:"items,omitempty"`
 	KeysR [][]int32 `json:"keysr,omitempty"`
-	Name  string `json:"name,omitempty"` // class name of object / type
-	Str   string `json:"str,omitempty"`  // String() of the element (display form)
+	Name  string    `json:"name,omitempty"` // class name of object / type
+	Str   string    `json:"str,omitempty"`  // String() of the element (display form)
 }
 
-func Num(f float64) Val    { return Val{T: "num", Bits: math.Float64bits(f)} }
-func Bool(b bool) Val      { return Val{T: "bool", B: b} }
-func Null() Val            { return Val{T: "null"} }
-func Text(s string) Val    { return Val{T: "text", R: BytesOf(s)} }
+func Num(f float64) Val { return Val{T: "num", Bits: math.Float64bits(f)} }
+func Bool(b bool) Val   { return Val{T: "bool", B: b} }
+func Null() Val         { return Val{T: "null"} }
+func Text(s string) Val { return Val{T: "text", R: BytesOf(s)} }
 func List(items ...Val) Val {
 	if items == nil {
 		items = []Val{}
@@ -59,8 +59,8 @@ func StringOf(b []int32) string {
 	return string(out)
 }
 
-func (v Val) F() float64     { return math.Float64frombits(v.Bits) }
-func (v Val) S() string      { return StringOf(v.R) }
+func (v Val) F() float64       { return math.Float64frombits(v.Bits) }
+func (v Val) S() string        { return StringOf(v.R) }
 func (v Val) Key(i int) string { return StringOf(v.KeysR[i]) }
 
 // Equal is structural equality; NaNs are all equal, +0 and -0 differ.
@@ -179,15 +179,15 @@ type Req struct {
 	Op string `json:"op"`
 
 	// exec / parse / tokens / varinput
-	Src      []int32        `json:"src,omitempty"`    // source as runes
-	Inputs   map[string]Val `json:"inputs,omitempty"` // input variables
-	Files    []File         `json:"files,omitempty"`  // module files (exec with Main)
-	Main     string         `json:"main,omitempty"`   // relative path of the main file inside Files
-	Libs     bool           `json:"libs,omitempty"`   // register @JSON, @文件 and the synthetic library
-	Reps     int            `json:"reps,omitempty"`   // repeat execution N times (C11)
-	EvalBudget  int         `json:"evalBudget,omitempty"`
-	ParseBudget int         `json:"parseBudget,omitempty"`
-	Shared   bool           `json:"shared,omitempty"` // seq: share one Interpreter
+	Src         []int32        `json:"src,omitempty"`    // source as runes
+	Inputs      map[string]Val `json:"inputs,omitempty"` // input variables
+	Files       []File         `json:"files,omitempty"`  // module files (exec with Main)
+	Main        string         `json:"main,omitempty"`   // relative path of the main file inside Files
+	Libs        bool           `json:"libs,omitempty"`   // register @JSON, @文件 and the synthetic library
+	Reps        int            `json:"reps,omitempty"`   // repeat execution N times (C11)
+	EvalBudget  int            `json:"evalBudget,omitempty"`
+	ParseBudget int            `json:"parseBudget,omitempty"`
+	Shared      bool           `json:"shared,omitempty"` // seq: share one Interpreter
 
 	// batch forms
 	Batch []Req    `json:"batch,omitempty"` // op=batch or seq
@@ -195,23 +195,23 @@ type Req struct {
 	Text  string   `json:"text,omitempty"`
 
 	// api histories (C10 / C12)
-	Recv  *Val     `json:"recv,omitempty"`
-	Steps []Step   `json:"steps,omitempty"`
+	Recv  *Val   `json:"recv,omitempty"`
+	Steps []Step `json:"steps,omitempty"`
 
 	// scope histories (C06)
 	ScopeOps []ScopeOp `json:"scopeOps,omitempty"`
 
 	// readall (C17)
-	Data  []int32 `json:"data,omitempty"`
-	Mode  string  `json:"mode,omitempty"`
-	N     int     `json:"n,omitempty"`
+	Data []int32 `json:"data,omitempty"`
+	Mode string  `json:"mode,omitempty"`
+	N    int     `json:"n,omitempty"`
 }
 
 type Step struct {
-	Kind string `json:"k"` // get set call new index indexset
-	Name string `json:"n,omitempty"`
-	Args []Val  `json:"a,omitempty"`
-	Target int  `json:"tg,omitempty"` // receiver selector: 0 = Recv
+	Kind   string `json:"k"` // get set call new index indexset
+	Name   string `json:"n,omitempty"`
+	Args   []Val  `json:"a,omitempty"`
+	Target int    `json:"tg,omitempty"` // receiver selector: 0 = Recv
 }
 
 type ScopeOp struct {
@@ -223,13 +223,13 @@ type ScopeOp struct {
 // ---------------------------------------------------------------- responses
 
 type ErrInfo struct {
-	Class  string `json:"class"` // syntax runtime io other
-	Code   int    `json:"code"`
-	Msg    string `json:"msg"`
-	Text   string `json:"text"`   // exec.DisplayError(err)
-	GoType string `json:"gotype"` // dynamic Go type of the (inner) error
-	Cursor int    `json:"cursor"`
-	HasCursor bool `json:"hasCursor,omitempty"`
+	Class        string `json:"class"` // syntax runtime io other
+	Code         int    `json:"code"`
+	Msg          string `json:"msg"`
+	Text         string `json:"text"`   // exec.DisplayError(err)
+	GoType       string `json:"gotype"` // dynamic Go type of the (inner) error
+	Cursor       int    `json:"cursor"`
+	HasCursor    bool   `json:"hasCursor,omitempty"`
 	DisplayPanic string `json:"displayPanic,omitempty"`
 }
 
@@ -241,50 +241,50 @@ type Tok struct {
 }
 
 type StepRes struct {
-	Kind  string `json:"k"` // ok err panic nil
-	Val   *Val   `json:"v,omitempty"`
-	Err   *ErrInfo `json:"err,omitempty"`
-	Panic string `json:"panic,omitempty"`
-	State *Val   `json:"st,omitempty"` // receiver after the step
-	OrderOK bool `json:"orderOK,omitempty"`
+	Kind    string   `json:"k"` // ok err panic nil
+	Val     *Val     `json:"v,omitempty"`
+	Err     *ErrInfo `json:"err,omitempty"`
+	Panic   string   `json:"panic,omitempty"`
+	State   *Val     `json:"st,omitempty"` // receiver after the step
+	OrderOK bool     `json:"orderOK,omitempty"`
 }
 
 type IDRes struct {
-	Kind string `json:"k"` // num name err panic
-	Bits uint64 `json:"bits,omitempty"`
+	Kind  string `json:"k"` // num name err panic
+	Bits  uint64 `json:"bits,omitempty"`
 	Panic string `json:"panic,omitempty"`
 }
 
 type Resp struct {
-	ID   int    `json:"id"`
-	Kind string `json:"kind"` // value error panic budget nilnil ok died timeout
-	Val  *Val   `json:"val,omitempty"`
-	Display string `json:"display,omitempty"`
-	Err  *ErrInfo `json:"err,omitempty"`
-	Panic string `json:"panic,omitempty"`
-	EvalTicks  int `json:"evalTicks,omitempty"`
-	ParseTicks int `json:"parseTicks,omitempty"`
-	CallStack int  `json:"callStack,omitempty"`
-	Scopes map[string][2]int `json:"scopes,omitempty"`
-	VMs    int  `json:"vms,omitempty"`
+	ID         int               `json:"id"`
+	Kind       string            `json:"kind"` // value error panic budget nilnil ok died timeout
+	Val        *Val              `json:"val,omitempty"`
+	Display    string            `json:"display,omitempty"`
+	Err        *ErrInfo          `json:"err,omitempty"`
+	Panic      string            `json:"panic,omitempty"`
+	EvalTicks  int               `json:"evalTicks,omitempty"`
+	ParseTicks int               `json:"parseTicks,omitempty"`
+	CallStack  int               `json:"callStack,omitempty"`
+	Scopes     map[string][2]int `json:"scopes,omitempty"`
+	VMs        int               `json:"vms,omitempty"`
 
-	Dump string `json:"dump,omitempty"` // parse: canonical s-expression
-	NLines int  `json:"nlines,omitempty"`
-	Toks []Tok  `json:"toks,omitempty"`
-	IDs  []IDRes `json:"ids,omitempty"`
-	Steps []StepRes `json:"steps,omitempty"`
-	Batch []Resp `json:"batch,omitempty"`
-	Runes []int32 `json:"runes,omitempty"`
-	Chunks [][]int32 `json:"chunks,omitempty"`
-	Table [][2]int32 `json:"table,omitempty"`
-	Ranges [][2]int32 `json:"ranges,omitempty"`
-	Ints  []int  `json:"ints,omitempty"`
-	Map  map[string]Val `json:"map,omitempty"`
-	Strs []string `json:"strs,omitempty"`
-	RepDistinct int `json:"repDistinct,omitempty"`
-	RepOutcomes []string `json:"repOutcomes,omitempty"`
-	CanaryOrders int `json:"canaryOrders,omitempty"`
-	Stderr string `json:"stderr,omitempty"`
+	Dump         string         `json:"dump,omitempty"` // parse: canonical s-expression
+	NLines       int            `json:"nlines,omitempty"`
+	Toks         []Tok          `json:"toks,omitempty"`
+	IDs          []IDRes        `json:"ids,omitempty"`
+	Steps        []StepRes      `json:"steps,omitempty"`
+	Batch        []Resp         `json:"batch,omitempty"`
+	Runes        []int32        `json:"runes,omitempty"`
+	Chunks       [][]int32      `json:"chunks,omitempty"`
+	Table        [][2]int32     `json:"table,omitempty"`
+	Ranges       [][2]int32     `json:"ranges,omitempty"`
+	Ints         []int          `json:"ints,omitempty"`
+	Map          map[string]Val `json:"map,omitempty"`
+	Strs         []string       `json:"strs,omitempty"`
+	RepDistinct  int            `json:"repDistinct,omitempty"`
+	RepOutcomes  []string       `json:"repOutcomes,omitempty"`
+	CanaryOrders int            `json:"canaryOrders,omitempty"`
+	Stderr       string         `json:"stderr,omitempty"`
 }
 
 // Outcome is a compact comparable summary of an exec response (used for repetition
